@@ -961,12 +961,16 @@ package vm
 //@ ghost stver Int
 //@ ghost snapver (Array Int Int)
 //@ ghost snapnext Int
+// acctver: the component of the state that records WHICH ACCOUNTS EXIST (changed by CreateAccount only); snapacct[i] is
+// its value at snapshot i. A failed creation must leave it as it found it (C12: no account is left behind).
+//@ ghost acctver Int
+//@ ghost snapacct (Array Int Int)
 
 // Native-token ledger (C06): ghosts bal / supply and balOf are declared with the account database (src/storage/account).
 
 //@ func StateDB.CreateAccount
 //@   option trusted interface
-//@   modifies ghost(stver)
+//@   modifies ghost(stver), ghost(acctver)
 
 //@ func StateDB.SubBalance
 //@   option trusted interface
@@ -1084,14 +1088,16 @@ package vm
 //@   option trusted interface
 //@   ensures Z(result) == old(ghost(snapnext)) && ghost(snapnext) == old(ghost(snapnext)) + 1
 //@   ensures ghost(snapver) == @store(old(ghost(snapver)), Z(result), ghost(stver))
+//@   ensures ghost(snapacct) == @store(old(ghost(snapacct)), Z(result), ghost(acctver))
 //@   ensures ghost(snapbal) == @store(old(ghost(snapbal)), Z(result), ghost(bal)) && ghost(snapsupply) == @store(old(ghost(snapsupply)), Z(result), ghost(supply))
-//@   modifies ghost(snapver), ghost(snapnext), ghost(snapbal), ghost(snapsupply)
+//@   modifies ghost(snapver), ghost(snapacct), ghost(snapnext), ghost(snapbal), ghost(snapsupply)
 
 //@ func StateDB.RevertToSnapshot
 //@   option trusted interface
 //@   ensures ghost(stver) == @select(ghost(snapver), Z(arg0))
+//@   ensures ghost(acctver) == @select(ghost(snapacct), Z(arg0))
 //@   ensures ghost(bal) == @select(ghost(snapbal), Z(arg0)) && ghost(supply) == @select(ghost(snapsupply), Z(arg0))
-//@   modifies ghost(stver), ghost(bal), ghost(supply)
+//@   modifies ghost(stver), ghost(acctver), ghost(bal), ghost(supply)
 
 // Value transfer hooks installed in the EVM context (vm.CanTransfer / vm.Transfer in init.go).
 // The two hooks (C06). Transfer moves value only: it needs a non-negative amount that the sender can pay -
@@ -1112,7 +1118,7 @@ package vm
 //@   ensures [self]     sender == recipient ==> balOf(sender) == old(balOf(sender))
 //@   ensures [others]   forall a common.Address :: a != sender && a != recipient ==> balOf(a) == old(balOf(a))
 //@   ensures [supply]   ghost(supply) == old(ghost(supply))
-//@   modifies ghost(stver), ghost(bal), ghost(supply)
+//@   modifies ghost(stver), ghost(acctver), ghost(bal), ghost(supply)
 
 //@ func Context.CanTransfer
 //@   option trusted
@@ -1129,7 +1135,7 @@ package vm
 //@   ensures [self]     arg1 == arg2 ==> balOf(arg1) == old(balOf(arg1))
 //@   ensures [others]   forall a common.Address :: a != arg1 && a != arg2 ==> balOf(a) == old(balOf(a))
 //@   ensures [supply]   ghost(supply) == old(ghost(supply))
-//@   modifies ghost(stver), ghost(bal), ghost(supply)
+//@   modifies ghost(stver), ghost(acctver), ghost(bal), ghost(supply)
 
 // Running code in a frame: arbitrary state changes, gas only decreases (C11; the interpreter loop itself is
 // not yet under contract: this is an assumption of the frame-level contracts below).
@@ -1142,11 +1148,11 @@ package vm
 //@   requires evm != nil && contract != nil
 //@   ensures [logs] result2 == nil ==> len(result1) == ghost(emitted) - old(ghost(emitted))
 //@   ensures contract.Gas <= old(contract.Gas)
-//@   ensures ghost(snapnext) >= old(ghost(snapnext)) && forall i Int :: i < old(ghost(snapnext)) ==> @select(ghost(snapver), i) == @select(old(ghost(snapver)), i) && @select(ghost(snapbal), i) == @select(old(ghost(snapbal)), i) && @select(ghost(snapsupply), i) == @select(old(ghost(snapsupply)), i)
+//@   ensures ghost(snapnext) >= old(ghost(snapnext)) && forall i Int :: i < old(ghost(snapnext)) ==> @select(ghost(snapver), i) == @select(old(ghost(snapver)), i) && @select(ghost(snapacct), i) == @select(old(ghost(snapacct)), i) && @select(ghost(snapbal), i) == @select(old(ghost(snapbal)), i) && @select(ghost(snapsupply), i) == @select(old(ghost(snapsupply)), i)
 //@   # executing code creates no value and leaves no negative balance (C06 at the level of the opcode family: assumed
 //@   # here, proved for the transfer steps of Call/CallCode/create and for vm.Transfer itself)
 //@   ensures [supply] ghost(supply) <= old(ghost(supply)) && ((forall a common.Address :: old(balOf(a)) >= 0) ==> forall a common.Address :: balOf(a) >= 0)
-//@   modifies ghost(stver), ghost(snapver), ghost(snapnext), ghost(bal), ghost(supply), ghost(snapbal), ghost(snapsupply), ghost(emitted), contract.Gas, evm.interpreter, evm.callGasTemp, evm.depth
+//@   modifies ghost(stver), ghost(acctver), ghost(snapver), ghost(snapacct), ghost(snapnext), ghost(bal), ghost(supply), ghost(snapbal), ghost(snapsupply), ghost(emitted), contract.Gas, evm.interpreter, evm.callGasTemp, evm.depth
 
 // The address of a contract reference is a fixed attribute of the reference.
 //@ spec abstract fn refAddr(c ContractRef) common.Address
@@ -1206,6 +1212,8 @@ package vm
 //@   requires [wf]     forall a common.Address :: balOf(a) >= 0
 //@   # (a creation that cannot pay for storing its code is a failed creation like any other: CREATE reports it as 0)
 //@   ensures [reverted] result4 != nil && result4 != errSubChainNoCreate && result4 != ErrDepth && result4 != ErrInsufficientBalance && result4 != ErrContractAddressCollision ==> ghost(stver) == @select(ghost(snapver), old(ghost(snapnext)))
+//@   # a creation that fails after its own checks leaves no account behind: the set of existing accounts is the one it found
+//@   ensures [noaccount] result4 != nil && result4 != errSubChainNoCreate && result4 != ErrDepth && result4 != ErrInsufficientBalance && result4 != ErrContractAddressCollision ==> ghost(acctver) == old(ghost(acctver))
 //@   ensures [faillogs] result4 != nil ==> len(result3) == 0
 
 // The EIP-3074 sponsored call: the value is debited from the SPONSOR, so it is the sponsor's balance that must
@@ -1325,7 +1333,7 @@ package vm
 //@   # every gas function of an entry that has a memory-size function goes through memoryGasCost, which
 //@   # rejects sizes above 0x1FFFFFFFE0
 //@   ensures [mem]   result1 == nil ==> arg4 <= 137438953440
-//@   modifies heap("vm.Memory"), heap("vm.EVM"), ghost(stver)
+//@   modifies heap("vm.Memory"), heap("vm.EVM"), ghost(stver), ghost(acctver)
 
 //@ func operation.memorySize
 //@   option trusted
@@ -1400,13 +1408,13 @@ package vm
 //@   requires [notstatic] !interpreter.readOnly
 //@   ensures [len] len(callContext.stack.data) == old(len(callContext.stack.data)) - 2
 //@   ensures [ret] result1 == nil && len(result0) == 0
-//@   modifies callContext.stack.data, ghost(stver)
+//@   modifies callContext.stack.data, ghost(stver), ghost(acctver)
 
 //@ func opTstore
 //@   property C12
 //@   requires scope != nil && scope.stack != nil && scope.contract != nil && interpreter != nil && interpreter.evm != nil && typeid(interpreter.evm.StateDB) != 0 && len(scope.stack.data) >= 2
 //@   ensures [static] interpreter.readOnly ==> ghost(stver) == old(ghost(stver)) && result1 == ErrWriteProtection
-//@   modifies scope.stack.data, ghost(stver)
+//@   modifies scope.stack.data, ghost(stver), ghost(acctver)
 
 //@ func opSuicide
 //@   property C12
@@ -1417,7 +1425,7 @@ package vm
 //@ func makeLog$1
 //@   option trusted
 //@   requires [notstatic] !interpreter.readOnly
-//@   modifies callContext.stack.data, callContext.logs, ghost(stver)
+//@   modifies callContext.stack.data, callContext.logs, ghost(stver), ghost(acctver)
 
 //@ func opCreate
 //@   option trusted
